@@ -1,4 +1,7 @@
 //! Verification model of `parking_lot 0.12`: `Mutex` and `RwLock` (new / lock / read / write).
+//! The lock word lives out of line in its own small heap cell (see verif_sched::new_lock_word): objects larger
+//! than a few machine words are moved with memcpy by Kani's code generator, which destroys CBMC's field-level
+//! constant propagation for everything stored inline.
 //! Contract: mutual exclusion, non re-entrant.  Acquiring a lock the same logical thread already
 //! holds is an assertion (self-deadlock); a lock held by another logical thread makes the
 //! placement infeasible.  Every acquisition is a schedule point and is reported to the monitor.
@@ -6,58 +9,62 @@ use core::cell::UnsafeCell;
 use core::ops::{Deref, DerefMut};
 use verif_sched as vs;
 
-pub struct Mutex<T: ?Sized> { st: UnsafeCell<vs::LockState>, data: UnsafeCell<T> }
+pub struct Mutex<T: ?Sized> { st: UnsafeCell<*mut vs::LockState>, data: UnsafeCell<T> }
 unsafe impl<T: ?Sized + Send> Send for Mutex<T> {}
 unsafe impl<T: ?Sized + Send> Sync for Mutex<T> {}
 pub struct MutexGuard<'a, T: ?Sized> { m: &'a Mutex<T> }
 
 impl<T> Mutex<T> {
-    pub const fn new(v: T) -> Self { Mutex { st: UnsafeCell::new(vs::LockState::new()), data: UnsafeCell::new(v) } }
+    pub fn new(v: T) -> Self { Mutex { st: UnsafeCell::new(vs::new_lock_word()), data: UnsafeCell::new(v) } }
     pub fn into_inner(self) -> T { self.data.into_inner() }
 }
 impl<T: ?Sized> Mutex<T> {
     pub fn lock(&self) -> MutexGuard<'_, T> {
         vs::schedule_point(vs::S_LOCK_ACQ);
-        vs::acquire_exclusive(unsafe { &mut *self.st.get() });
+        vs::acquire_exclusive(unsafe { &mut **self.st.get() });
         MutexGuard { m: self }
     }
-    pub fn vk_set_class(&self, c: u8) { unsafe { (*self.st.get()).class = c; } }
-    pub fn vk_locked(&self) -> bool { unsafe { (*self.st.get()).writer != 0 } }
+    /// also re-initialises the whole lock word in place (objects moved into a heap allocation lose CBMC's
+    /// field-level constant propagation; rewriting the fields after the allocation restores it)
+    pub fn vk_set_class(&self, c: u8) { unsafe { *self.st.get() = vs::new_lock_word(); (**self.st.get()).class = c; } }
+    pub fn vk_locked(&self) -> bool { unsafe { (**self.st.get()).writer != 0 } }
     #[allow(clippy::mut_from_ref)]
     pub fn vk_data(&self) -> &mut T { unsafe { &mut *self.data.get() } }
 }
 impl<'a, T: ?Sized> Deref for MutexGuard<'a, T> { type Target = T; fn deref(&self) -> &T { unsafe { &*self.m.data.get() } } }
 impl<'a, T: ?Sized> DerefMut for MutexGuard<'a, T> { fn deref_mut(&mut self) -> &mut T { unsafe { &mut *self.m.data.get() } } }
-impl<'a, T: ?Sized> Drop for MutexGuard<'a, T> { fn drop(&mut self) { vs::release_exclusive(unsafe { &mut *self.m.st.get() }); } }
+impl<'a, T: ?Sized> Drop for MutexGuard<'a, T> { fn drop(&mut self) { vs::release_exclusive(unsafe { &mut **self.m.st.get() }); } }
 
-pub struct RwLock<T: ?Sized> { st: UnsafeCell<vs::LockState>, data: UnsafeCell<T> }
+pub struct RwLock<T: ?Sized> { st: UnsafeCell<*mut vs::LockState>, data: UnsafeCell<T> }
 unsafe impl<T: ?Sized + Send> Send for RwLock<T> {}
 unsafe impl<T: ?Sized + Send + Sync> Sync for RwLock<T> {}
 pub struct RwLockReadGuard<'a, T: ?Sized> { l: &'a RwLock<T> }
 pub struct RwLockWriteGuard<'a, T: ?Sized> { l: &'a RwLock<T> }
 
 impl<T> RwLock<T> {
-    pub const fn new(v: T) -> Self { RwLock { st: UnsafeCell::new(vs::LockState::new()), data: UnsafeCell::new(v) } }
+    pub fn new(v: T) -> Self { RwLock { st: UnsafeCell::new(vs::new_lock_word()), data: UnsafeCell::new(v) } }
     pub fn into_inner(self) -> T { self.data.into_inner() }
 }
 impl<T: ?Sized> RwLock<T> {
     pub fn read(&self) -> RwLockReadGuard<'_, T> {
         vs::schedule_point(vs::S_LOCK_ACQ);
-        vs::acquire_shared(unsafe { &mut *self.st.get() }, false);
+        vs::acquire_shared(unsafe { &mut **self.st.get() }, false);
         RwLockReadGuard { l: self }
     }
     pub fn write(&self) -> RwLockWriteGuard<'_, T> {
         vs::schedule_point(vs::S_LOCK_ACQ);
-        vs::acquire_exclusive(unsafe { &mut *self.st.get() });
+        vs::acquire_exclusive(unsafe { &mut **self.st.get() });
         RwLockWriteGuard { l: self }
     }
-    pub fn vk_set_class(&self, c: u8) { unsafe { (*self.st.get()).class = c; } }
-    pub fn vk_locked(&self) -> bool { unsafe { let s = &*self.st.get(); s.writer != 0 || s.readers.iter().any(|r| *r > 0) } }
+    /// also re-initialises the whole lock word in place (objects moved into a heap allocation lose CBMC's
+    /// field-level constant propagation; rewriting the fields after the allocation restores it)
+    pub fn vk_set_class(&self, c: u8) { unsafe { *self.st.get() = vs::new_lock_word(); (**self.st.get()).class = c; } }
+    pub fn vk_locked(&self) -> bool { unsafe { let s = &**self.st.get(); s.writer != 0 || s.readers.iter().any(|r| *r > 0) } }
     #[allow(clippy::mut_from_ref)]
     pub fn vk_data(&self) -> &mut T { unsafe { &mut *self.data.get() } }
 }
 impl<'a, T: ?Sized> Deref for RwLockReadGuard<'a, T> { type Target = T; fn deref(&self) -> &T { unsafe { &*self.l.data.get() } } }
-impl<'a, T: ?Sized> Drop for RwLockReadGuard<'a, T> { fn drop(&mut self) { vs::release_shared(unsafe { &mut *self.l.st.get() }); } }
+impl<'a, T: ?Sized> Drop for RwLockReadGuard<'a, T> { fn drop(&mut self) { vs::release_shared(unsafe { &mut **self.l.st.get() }); } }
 impl<'a, T: ?Sized> Deref for RwLockWriteGuard<'a, T> { type Target = T; fn deref(&self) -> &T { unsafe { &*self.l.data.get() } } }
 impl<'a, T: ?Sized> DerefMut for RwLockWriteGuard<'a, T> { fn deref_mut(&mut self) -> &mut T { unsafe { &mut *self.l.data.get() } } }
-impl<'a, T: ?Sized> Drop for RwLockWriteGuard<'a, T> { fn drop(&mut self) { vs::release_exclusive(unsafe { &mut *self.l.st.get() }); } }
+impl<'a, T: ?Sized> Drop for RwLockWriteGuard<'a, T> { fn drop(&mut self) { vs::release_exclusive(unsafe { &mut **self.l.st.get() }); } }
